@@ -1217,5 +1217,73 @@ func checkStemSem(w *World, r *Report) {
 			r.Fail("stemsem", key, w.Pos(cc.Pos()), strings.TrimPrefix(op, "t2")+": "+bad, nil)
 		}
 	}
+	// the implicit vertical stems in front of the first hintmask / cntrmask:
+	// "hstemhm ... hintmask": operands left on the stack are vstem operands,
+	// and like every stem operator they start at 0, whatever vstems an
+	// explicit vstemhm declared before
+	for _, op := range []string{"t2hintmask"} {
+		key := r.MkKey("stemsem", "decodeCharString", "implicit vstems at "+strings.TrimPrefix(op, "t2"))
+		cc := clauses[op]
+		if cc == nil {
+			r.Fail("stemsem", key, w.Pos(dec.Pos()), "no case for "+op, nil)
+			continue
+		}
+		bad := ""
+		for n := 2; n <= 5 && bad == ""; n++ {
+			var stack []string
+			for i := 0; i < n; i++ {
+				stack = append(stack, fmt.Sprintf("s%d", i))
+			}
+			// only the part of the clause that records the stems is
+			// interpreted: the longest prefix of its statements the interpreter
+			// understands (the rest builds the mask command from the code bytes)
+			var in *ciInterp
+			err := "no statement of the clause is understood"
+			for k := len(cc.Body); k >= 1; k-- {
+				pre := &ast.CaseClause{List: cc.List, Body: cc.Body[:k], Case: cc.Case, Colon: cc.Colon}
+				in2, e2 := ciRun(info, funcs, closures, pre, func(st *ciState) {
+					st.sl["stack"] = ciSlice(stack, 4)
+					st.sl["res.HStem"] = ciSlice([]string{"h0", "h1"}, 0)
+					st.sl["res.VStem"] = ciSlice([]string{"v0", "v1"}, 0)
+					st.bools["widthIsSet"] = false
+					st.ints["stage"] = 1
+				})
+				if e2 == "" {
+					in, err = in2, ""
+					break
+				}
+				err = e2
+			}
+			if err != "" {
+				bad = err
+				break
+			}
+			if in.st.failed {
+				bad = fmt.Sprintf("%d operands are rejected", n)
+				break
+			}
+			wd := n % 2
+			want := []string{"v0", "v1"}
+			sum := ciLin{t: map[string]int{}}
+			for i := wd; i < n; i++ {
+				sum = sum.add(ciAtom(fmt.Sprintf("s%d", i)), 1)
+				want = append(want, sum.String())
+			}
+			got := in.st.sl["res.VStem"].tokens()
+			if strings.Join(got, " ") != strings.Join(want, " ") {
+				bad = fmt.Sprintf("with %d operands on the stack and vstems already declared the implicit vertical stems recorded are [%s], defined are [%s] (they start at 0 like every stem operator)", n, strings.Join(got, " "), strings.Join(want, " "))
+				break
+			}
+			if o := in.st.sl["res.HStem"].tokens(); strings.Join(o, " ") != "h0 h1" {
+				bad = fmt.Sprintf("the horizontal stems are changed to [%s]", strings.Join(o, " "))
+				break
+			}
+		}
+		if bad == "" {
+			r.OK("stemsem", key, w.Pos(cc.Pos()), "implicit vstems are the running sums of the operands left on the stack")
+		} else {
+			r.Fail("stemsem", key, w.Pos(cc.Pos()), "hintmask: "+bad, nil)
+		}
+	}
 	r.Floor("stemsem", 4)
 }
